@@ -261,6 +261,121 @@ Example C15_nonvacuous_transport :
   /\ recorded_d cf_all None (DPushed (PbPlain pkA) pkB) = Ok (fst pkA, PS "S256").
 Proof. repeat split; vm_compute; reflexivity. Qed.
 
+(* ================================================================ interactive authentication: the log-in page
+   The user has to authenticate before the code is minted: the request travels as `query` (Message.to_urlencoded) in
+   the log-in page, the application rebuilds it (AuthorizationRequest().from_urlencoded(query), create_session,
+   authz_part2) and the grant records the REBUILT request.  resume (Model/Pkce.v) = request -> query -> rebuilt
+   request, through the urllib model of Lib/Qs.v.  resumable lists others: the request class does not declare the two
+   PKCE parameters with a list type, the other parameters carry text and are not themselves called code_challenge /
+   code_challenge_method.  `to_query ... <> None`: the page's query can be written (no lone surrogate). *)
+
+(* the round trip is a per-parameter map over EVERY parameter the request holds: nothing is dropped or added *)
+Theorem C15_resume_keeps_every_parameter : forall lists r q,
+  to_query r = Some q -> values_nonempty r = true ->
+  resume lists r = Ok (map (fun kv => (fst kv, deser lists (fst kv) (ser (snd kv)))) r).
+Proof. exact resume_is_map. Qed.
+Print Assumptions C15_resume_keeps_every_parameter.
+
+(* extension parameters survive: a parameter the class does not declare as a list comes back with its text *)
+Theorem C15_resume_extension_parameter_survives : forall lists r q k,
+  to_query r = Some q -> values_nonempty r = true -> str_in k lists = false ->
+  forall r', resume lists r = Ok r' -> option_map ser (assoc k r') = option_map ser (assoc k r).
+Proof. exact resume_param. Qed.
+Print Assumptions C15_resume_extension_parameter_survives.
+
+Theorem C15_resume_pair_survives : forall lists r q r',
+  str_in k_cc lists = false -> str_in k_ccm lists = false ->
+  to_query r = Some q -> values_nonempty r = true ->
+  resume lists r = Ok r' -> qpair r' = qpair r.
+Proof. exact resume_pair. Qed.
+Print Assumptions C15_resume_pair_survives.
+
+(* the pair recorded for the code minted after the log-in page is the pair post_authn_parse accepted for the
+   authorization request that led to the page (recorded_d: whatever the transport of that request) *)
+Theorem C15_resumed_recorded_is_request_pair : forall cf ce d lists others st q,
+  resumable lists others -> recorded_d cf ce d = Ok st -> to_query (held others st) = Some q ->
+  recorded_i cf ce d lists others = Ok (fst st, Some (snd st)).
+Proof. exact recorded_i_is_request_pair. Qed.
+Print Assumptions C15_resumed_recorded_is_request_pair.
+
+(* an interactive flow is judged exactly like the same request answered without a log-in page *)
+Theorem C15_resumed_flow_is_direct_flow : forall HB cf ce d lists others cv t,
+  resumable lists others ->
+  (forall st, recorded_d cf ce d = Ok st -> to_query (held others st) <> None) ->
+  flow_i HB cf ce d lists others cv t = flow_d HB cf ce d cv t.
+Proof. exact flow_i_is_flow_d. Qed.
+Print Assumptions C15_resumed_flow_is_direct_flow.
+
+(* token endpoint, resumed flows: tokens iff the request was acceptable and (it carried no challenge or the verifier
+   transforms, under the recorded method, to the challenge of the request that led to the log-in page) *)
+Theorem C15_resumed_tokens_iff : forall HB cf ce d lists others cv t,
+  resumable lists others ->
+  (forall st, recorded_d cf ce d = Ok st -> to_query (held others st) <> None) ->
+  (flow_i HB cf ce d lists others cv t = Tokens <->
+   recorded_d cf ce d = Ok (fst (assembled d), recorded_method (snd (assembled d)))
+   /\ (fst (assembled d) = None \/
+       exists c v k, fst (assembled d) = Some c /\ norm cv = Some v
+                     /\ assoc (recorded_method (snd (assembled d))) server_cc_methods = Some k /\ tr HB k v = Ok c)).
+Proof. exact resumed_tokens_iff. Qed.
+Print Assumptions C15_resumed_tokens_iff.
+
+Theorem C15_resumed_missing_verifier_refused : forall HB cf ce d lists others cv t c,
+  resumable lists others ->
+  (forall st, recorded_d cf ce d = Ok st -> to_query (held others st) <> None) ->
+  fst (assembled d) = Some c -> norm cv = None ->
+  flow_i HB cf ce d lists others cv t = AzRefused 2 \/ flow_i HB cf ce d lists others cv t = TkRefused 3.
+Proof. exact resumed_missing_verifier_refused. Qed.
+Print Assumptions C15_resumed_missing_verifier_refused.
+
+Theorem C15_resumed_wrong_verifier_refused : forall HB cf ce d lists others cv t c v,
+  resumable lists others ->
+  (forall st, recorded_d cf ce d = Ok st -> to_query (held others st) <> None) ->
+  fst (assembled d) = Some c -> norm cv = Some v ->
+  (forall k, assoc (recorded_method (snd (assembled d))) server_cc_methods = Some k -> tr HB k v <> Ok c) ->
+  flow_i HB cf ce d lists others cv t <> Tokens.
+Proof. exact resumed_wrong_verifier_refused. Qed.
+Print Assumptions C15_resumed_wrong_verifier_refused.
+
+(* which other parameters the request has (prompt, max_age, state ...) and which of them are lists has no say *)
+Theorem C15_resumed_others_irrelevant : forall HB cf ce d lists others lists' others' cv t,
+  resumable lists others -> resumable lists' others' ->
+  (forall st, recorded_d cf ce d = Ok st -> to_query (held others st) <> None) ->
+  (forall st, recorded_d cf ce d = Ok st -> to_query (held others' st) <> None) ->
+  flow_i HB cf ce d lists others cv t = flow_i HB cf ce d lists' others' cv t.
+Proof. exact resumed_others_irrelevant. Qed.
+Print Assumptions C15_resumed_others_irrelevant.
+
+(* why "every parameter is written" matters: a page written from the declared parameters only loses the challenge *)
+Theorem C15_resume_declared_only_refuted : forall declared r,
+  str_in k_cc declared = false -> fst (qpair (declared_only declared r)) = None.
+Proof. exact declared_only_drops_pair. Qed.
+Print Assumptions C15_resume_declared_only_refuted.
+
+Definition oth_x : rparams :=
+  [(PS "client_id", PvS (PS "client_1")); (PS "redirect_uri", PvS (PS "https://client_1.example.com/cb?a=b c"));
+   (PS "scope", PvL [PS "openid"; PS "profile"]); (PS "state", PvS (PS "S&=%+ t")); (PS "response_type", PvL [PS "code"]);
+   (PS "prompt", PvL [PS "login"])].
+Definition lists_x : list pystr := [PS "scope"; PS "response_type"; PS "prompt"; PS "acr_values"].
+Example C15_nonvacuous_resume :
+  (* the side conditions are satisfiable, the query is what urllib writes, the rebuilt request is the request *)
+  resumable lists_x oth_x
+  /\ to_query (held oth_x (fst pkA, PS "S256"))
+     = Some (PS "client_id=client_1&redirect_uri=https%3A%2F%2Fclient_1.example.com%2Fcb%3Fa%3Db+c&scope=openid+profile&state=S%26%3D%25%2B+t&response_type=code&prompt=login&code_challenge=Hverifier-A&code_challenge_method=S256")
+  /\ resume lists_x (held oth_x (fst pkA, PS "S256")) = Ok (held oth_x (fst pkA, PS "S256"))
+  /\ recorded_i cf_all None (DFront pkA) lists_x oth_x = Ok pkA
+  /\ recorded_i cf_all None (DPushed (PbPlain pkA) pkB) lists_x oth_x = Ok pkA
+  (* the default method post_authn_parse filled in travels through the page as well *)
+  /\ recorded_i cf_all None (DFront (Some (PS "verifier-A"), None)) lists_x oth_x = Ok (Some (PS "verifier-A"), Some (PS "plain"))
+  /\ flow_i HBx cf_all None (DFront pkA) lists_x oth_x (Some (PS "verifier-A")) None = Tokens
+  /\ flow_i HBx cf_all None (DFront pkA) lists_x oth_x (Some (PS "verifier-B")) None = TkRefused 4
+  /\ flow_i HBx cf_all None (DFront pkA) lists_x oth_x None None = TkRefused 3
+  /\ flow_i HBx cf_all None (DValue pkA pkB) lists_x oth_x (Some (PS "verifier-B")) None = TkRefused 4
+  /\ flow_i HBx cf_all None (DFront pk0) lists_x oth_x None None = AzRefused 1
+  (* a page written from the declared parameters only: the code is redeemed without any verifier *)
+  /\ token_leg_q HBx (qpair (declared_only (PS "client_id" :: PS "redirect_uri" :: PS "state" :: lists_x)
+                                          (held oth_x (fst pkA, PS "S256")))) None None = Ok tt.
+Proof. repeat split; vm_compute; reflexivity. Qed.
+
 (* Tie to the source: Gen/Src_pkce.v is the CURRENT idpyoidc.server.oauth2.add_on.pkce.verify_code_challenge, translated
    by harness/py2v.py on every run (CC_METHOD = the regenerated table server_cc_methods over the abstract hash HB). *)
 From Verif Require Lib.PyOps Gen.Src_pkce Proofs.Src_refine_pkce.
